@@ -536,7 +536,6 @@ Proof.
   destruct (normalize_fields dlm row) as [fs nn]. cbn [fst].
   destruct pol; try (intros H; inversion H; subst; reflexivity).
   destruct fs as [|f [|g fs]]; [discriminate| |discriminate].
-  destruct (match fl with LPy => false | LJs => js_mono_raw_scalar row end); [discriminate|].
   intros H; inversion H; subst; reflexivity.
 Qed.
 
